@@ -6,8 +6,9 @@ import RsMatterVerif.Lemmas.RxPath
 session table + the single RX packet slot + clock; steps = `process_rx`/`decode_packet`/`handle_rx_packet`,
 `accept_if`, `ExchangeId::recv`, send, `Exchange::drop`, `initiate_for_session`, session establishment,
 session removal, time, the accept-timeout sweep, the orphan sweep, the dropped-exchange closer)
-`Reach n` = `n` is reachable from the empty node by any history, as long as fewer than 2^28 sessions
-were ever created (the 28-bit internal session id has not wrapped).
+`Reach n` = `n` is reachable from the empty node by ANY history (no side condition: with the repaired
+`Sessions::add` — finding `C10-session-id-wrap` — internal session ids stay unique also after the
+28-bit counter has wrapped; `Model/RxPath.addSess`).
 * `delivered_only_to_owner_run`: in every reachable state, if `recv` of the exchange (uid, idx) returns
   the waiting message, then that exchange's session has the message's local session id AND peer
   (address/node ids: `port`) AND security kind, the exchange has the message's exchange id and the role
@@ -336,12 +337,12 @@ theorem delivered_only_to_owner_run {n : Node} (hr : Reach n) {uid idx : Nat} {m
             · simp at hd
 
 /-- the same for an explicit history: after ANY list of steps from the empty node -/
-theorem delivered_only_to_owner_history (now0 : Nat) (ops : List Op) (hadm : Admissible { now := now0 } ops)
+theorem delivered_only_to_owner_history (now0 : Nat) (ops : List Op)
     {uid idx : Nat} {m : Msg}
     (hd : (step (run { now := now0 } ops).1 (.recv uid idx)).2 = .delivered uid idx m) :
     ownerOf (run { now := now0 } ops).1.t m = some (uid, idx) ∧ (run { now := now0 } ops).1.rx.map (·.m) = some m := by
   obtain ⟨r, _, _, hrx, hrm, _, _, _, _, _, _, _, how⟩ :=
-    delivered_only_to_owner_run (reach_run (Reach.init now0) ops hadm) hd
+    delivered_only_to_owner_run (reach_run (Reach.init now0) ops) hd
   exact ⟨how, by rw [hrx]; simp [hrm]⟩
 
 /-- **An accept-pending exchange always has its message** (every history): it exists only while the
@@ -440,8 +441,6 @@ structure Run where
   op : Nat → Op
   next : ∀ k, st (k + 1) = (step (st k) (op k)).1
   reach0 : Reach (st 0)
-  /-- fewer than 2^28 sessions are ever created -/
-  noWrap : ∀ k, (st k).t.nextUid < 0x0fffffff
 
 /-- **Fairness hypothesis** (not proved — it is the executor's and the timers' obligation): from every
 point of the run the accept-timeout sweeper is polled again before `pollA` more milliseconds have
@@ -464,7 +463,7 @@ theorem Run.reach (ρ : Run) : ∀ k, Reach (ρ.st k) := by
   intro k
   induction k with
   | zero => exact ρ.reach0
-  | succ k ih => rw [ρ.next k]; exact Reach.step _ ih (ρ.noWrap k)
+  | succ k ih => rw [ρ.next k]; exact Reach.step _ ih
 
 theorem Run.now_mono (ρ : Run) (j : Nat) : ∀ d, (ρ.st j).now ≤ (ρ.st (j + d)).now := by
   intro d
@@ -508,7 +507,7 @@ theorem Run.persist_noPending (ρ : Run) {j : Nat} {x : Held} (hx : (ρ.st j).rx
     · have hn : ρ.st (j + d + 1) = (step (ρ.st (j + d)) (ρ.op (j + d))).1 := ρ.next (j + d)
       have hnp' : NoPending (ρ.st (j + d + 1)).t := by
         rw [hn]
-        exact noPending_step (inv_reach (ρ.reach _)) (by rw [h]; simp) (ρ.noWrap _) hp _
+        exact noPending_step (inv_reach (ρ.reach _)) (by rw [h]; simp) hp _
       rcases rx_step (ρ.st (j + d)) (ρ.op (j + d)) with h1 | h1 | h1
       · right; exact ⟨by show (ρ.st (j + d + 1)).rx = some x; rw [hn, h1]; exact h, hnp'⟩
       · left; exact ⟨j + d, by omega, by omega, by rw [hn]; exact h1⟩
@@ -650,7 +649,7 @@ theorem closer_progress {n : Node} (hr : Reach n) (hpos : 0 < droppedCount n.t) 
 ack, not `CloseSession`) for ANY exchange that is owned by a live `Exchange` and not waiting for an
 acknowledgement is kept in the slot for exactly that exchange, and the exchange's `recv` returns it —
 whatever the other exchanges of the node are doing (dropped, accept-timed-out, stalled). -/
-theorem other_exchanges_progress {n : Node} (hr : Reach n) (hw : n.t.nextUid < 0x0fffffff) (hrx : n.rx = none)
+theorem other_exchanges_progress {n : Node} (hr : Reach n) (hrx : n.rx = none)
     {s : Sess} (hs : s ∈ n.t.sessions) {i : Nat} {e : Exch} (he : s.slot i = some e)
     (hown : RoleSt.isOwned e.role = true) (hnr : e.mrp.retrans = none) (m : Msg) (rnd : Nat)
     (hf : s.isForRx m.port m.sid = true) (hfor : e.isForRx m.hdr = true)
@@ -661,7 +660,7 @@ theorem other_exchanges_progress {n : Node} (hr : Reach n) (hw : n.t.nextUid < 0
     (step (step n (.arrive m rnd)).1 (.recv s.uid i)).1.rx = none := by
   have hi := inv_reach hr
   obtain ⟨harr, m', hsl, hm'⟩ := arrive_owner_eval hi hrx hs he hnr m rnd hf hfor hk1 hk2 hfresh
-  have hi1 : Inv (step n (.arrive m rnd)).1 := inv_step hi hw _
+  have hi1 : Inv (step n (.arrive m rnd)).1 := inv_step hi _
   have hstep : step n (.arrive m rnd) = arrive n m rnd := rfl
   rw [hstep, harr] at hi1 ⊢
   refine ⟨rfl, ?_⟩
@@ -695,7 +694,7 @@ example : (run {} exOpsAB).2 =
 
 /-- `delivered_only_to_owner_run` instantiated on the reachable state before the last step above -/
 example : ownerOf (run {} (exOpsAB.take 9)).1.t exMa2 = some (0, 0) :=
-  (delivered_only_to_owner_history 0 (exOpsAB.take 9) (by decide) (uid := 0) (idx := 0) (m := exMa2) (by decide)).1
+  (delivered_only_to_owner_history 0 (exOpsAB.take 9) (uid := 0) (idx := 0) (m := exMa2) (by decide)).1
 
 /-- an unclaimed first message: nothing happens 999 ms after its arrival, at 1000 ms the accept sweep
 discards it and marks the exchange dropped, the closer then frees the slot and writes the ack it owes;
@@ -709,7 +708,7 @@ example : (run {} [.arrive exMa 100, .tick 999, .sweepAccept, .sweepOrphan, .tic
 example : Reach (run {} [.arrive exMa 100, .tick 5]).1 ∧
     (run {} [.arrive exMa 100, .tick 5]).1.rx = some { m := exMa, arrivedAt := 0 } ∧
     ((run {} [.arrive exMa 100, .tick 5]).1.t.sessions.map (fun s => s.exchs.map (fun o => o.map (·.role)))) = [[some .rp]] :=
-  ⟨reach_run (Reach.init 0) _ (by decide), by decide, by decide⟩
+  ⟨reach_run (Reach.init 0) _, by decide, by decide⟩
 
 /-- a reachable state with a dropped exchange that owes an ack (hypotheses of `closer_acts_when_dropped`),
 and one whose session must be closed because a retransmission is pending -/
@@ -777,8 +776,7 @@ def fairRun : Run where
   st := fairSt
   op := fairOp
   next := fairNext
-  reach0 := by rw [fairSt0]; exact reach_run (Reach.init 0) _ (by decide)
-  noWrap := fun _ => show (1 : Nat) < 0x0fffffff by decide
+  reach0 := by rw [fairSt0]; exact reach_run (Reach.init 0) _
 
 theorem fairRun_fair : SweepFair fairRun 50 50 := by
   constructor
